@@ -106,6 +106,19 @@ def voronoi_cells(mesh, domain, radius):
 
 def check_mesh(ctx, cfg, with_model=True):
     dev = zoo.make_device(cfg["kind"], ctx.rng, max_edge_length=cfg["mel"], smooth=cfg["smooth"], xi=cfg.get("xi", 0.5), min_points=cfg.get("min_points"))
+    first = check_device_mesh(ctx, cfg, dev, with_model=with_model)
+    # the same relations hold for the mesh a device carries after it has been moved: in place, and inside the
+    # `translation` context manager (and again after leaving it)
+    moved = dict(cfg, moved="translate-inplace")
+    dev.translate(dx=7.0 * dev.layer.coherence_length, dy=-2.0 * dev.layer.coherence_length, inplace=True)
+    first = first or check_device_mesh(ctx, moved, dev, with_model=False)
+    with dev.translation(-3.0 * dev.layer.coherence_length, 1.5 * dev.layer.coherence_length):
+        first = first or check_device_mesh(ctx, dict(cfg, moved="translation-context"), dev, with_model=False)
+    first = first or check_device_mesh(ctx, dict(cfg, moved="after-translation-context"), dev, with_model=False)
+    return first
+
+
+def check_device_mesh(ctx, cfg, dev, with_model=True):
     mesh = dev.mesh
     xi = dev.layer.coherence_length
     P, T = mesh.sites, mesh.elements
@@ -121,7 +134,7 @@ def check_mesh(ctx, cfg, with_model=True):
         if first is None:
             first = dict(key=key, what=what, **rp)
 
-    ctx.case((cfg["kind"], cfg["mel"], cfg["smooth"], n), nontrivial=n >= 50)
+    ctx.case((cfg["kind"], cfg["mel"], cfg["smooth"], cfg.get("moved", ""), n), nontrivial=n >= 50)
     ctx.count("meshes")
     ctx.count("sites", n)
     ctx.count("edges", E)
